@@ -150,3 +150,13 @@ Theorem C19_src_reference_statistics :
   lookup_src "property category_weights" continuum_src = Some "(self) weights = SortedDict(); nb_units = 0; for (_, unit) in self: [nb_units += 1; if unit.annotation not in weights: [weights[unit.annotation] = 1] else: [weights[unit.annotation] += 1]]; for annotation in weights.keys(): [weights[annotation] /= nb_units]; return weights"%string /\
   lookup_src "property bounds" continuum_src = Some "(self) return (self.bound_inf, self.bound_sup)"%string.
 Proof. repeat split. Qed.
+
+(* the transition entries are affine in their three ingredients with coefficients that sum to 1: a row built from rows that each sum to 1
+   (identity, weights, normalised overlaps) sums to 1 for every magnitude - and is the identity row at magnitude 0, with or without an
+   overlapping function *)
+Theorem C19_src_transition_rows m e1 s1 o1 e2 s2 o2 :
+  cat_prob_src e1 s1 m + cat_prob_src e2 s2 m == cat_prob_src (e1 + e2) (s1 + s2) m /\
+  cat_prob_overlap_src e1 s1 o1 m + cat_prob_overlap_src e2 s2 o2 m == cat_prob_overlap_src (e1 + e2) (s1 + s2) (o1 + o2) m /\
+  cat_prob_src 1 1 m == 1 /\ cat_prob_overlap_src 1 1 1 m == 1 /\
+  cat_prob_overlap_src e1 s1 o1 0 == e1.
+Proof. unfold cat_prob_src, cat_prob_overlap_src. repeat split; ring. Qed.
